@@ -257,6 +257,7 @@ impl NetSim {
         let snap = c.rigs[&rid].snapshot();
         {
             let mon = c.mons.get_mut(&rid).unwrap();
+            mon.accepted_last = class == "accepted";
             self_monitors(mon, &c.w, &c.rigs[&rid], &obs.events, &snap, &op, out);
         }
         let snapj = sum_snapshot(&mut c.w, &snap);
